@@ -420,6 +420,13 @@ fn struct_cases(files: &BTreeMap<u64, FileImg>, rng: &mut Rng, count: usize, out
         vec![Op::CopyFile { from: last, to: last + 2 }],
         vec![Op::CopyFile { from: last, to: last + 1_000_000 }],
         vec![Op::CopyFile { from: last, to: u64::MAX - 1 }],
+        // the largest supported file number, read to its last block (content: a copy of a WAL
+        // file / blocks without any zero header)
+        vec![Op::CopyFile { from: first, to: u64::MAX }],
+        vec![Op::CopyFile { from: last, to: u64::MAX }],
+        vec![Op::Add(Extra::File { name: wal_name(u64::MAX), content: vec![0xFFu8; 4 * BLOCK] })],
+        vec![Op::Add(Extra::File { name: wal_name(u64::MAX), content: garbage(rng, 4 * BLOCK) })],
+        vec![Op::RemoveFile { file: last }, Op::CopyFile { from: first, to: u64::MAX }],
         vec![Op::Add(Extra::Dir { name: wal_name(last + 1) })],
         vec![Op::Add(Extra::Symlink { name: wal_name(last + 1), target: wal_name(first) })],
         vec![Op::Add(Extra::Symlink { name: wal_name(last + 3), target: b"does-not-exist".to_vec() })],
